@@ -30,6 +30,8 @@ PActs(i, j) == LET p == Lines[i][j] IN
                  \cup (IF p.t = "lb" THEN {Act("spa", i, j)} ELSE {})
                  \cup (IF p.t = "rb" THEN {Act("spb", i, j)} ELSE {})
                  \cup (IF p.u # p.s THEN {Act("up", i, j)} ELSE {})
+                 \* a mnemonic may also be written in mixed case (first letter upper, the rest lower)
+                 \cup (IF "m" \in DOMAIN p /\ p.m # p.s THEN {Act("mix", i, j)} ELSE {})
 PieceActs == UNION { UNION { PActs(i, j) : j \in 1..Len(Lines[i]) } : i \in 1..NL }
 IncActs == {Act("inc", Base.runs[r][1], Base.runs[r][2]) : r \in 1..Len(Base.runs)}
 \* the source text ends without a line end
@@ -51,7 +53,8 @@ Cat(ss) == IF ss = <<>> THEN "" ELSE Head(ss) \o Cat(Tail(ss))
 PieceText(i, j) ==
     LET p == Lines[i][j] IN
     IF Has("rm", i, j) THEN ""
-    ELSE (IF Has("spb", i, j) THEN " " ELSE "") \o (IF Has("up", i, j) THEN p.u ELSE p.s) \o (IF Has("spa", i, j) THEN "  " ELSE "")
+    ELSE (IF Has("spb", i, j) THEN " " ELSE "") \o (IF Has("mix", i, j) THEN p.m ELSE IF Has("up", i, j) THEN p.u ELSE p.s)
+         \o (IF Has("spa", i, j) THEN "  " ELSE "")
 
 StmtLine(i) ==
     (IF Has("indent", i, 0) THEN "     " ELSE IF Has("tabindent", i, 0) THEN "\t" ELSE "")
